@@ -34,6 +34,7 @@ using namespace verif;
 // ------------------------------------------------------------------------------- ledger
 static int g_next = 0;           // next object id
 static std::string g_evs;        // events of the current operation
+static int g_arm = 0;            // countdown: the g_arm-th payload copy/move construction throws
 static bool g_reloc = false;     // last call: callable observed `this` != address it was constructed at
 static constexpr unsigned ALIVE = 0xA11CE5u, GONE = 0xDEADu;
 
@@ -65,6 +66,18 @@ struct payload_error
     int v;
 };
 
+// id for a copy/move-constructed payload; throws instead when the payloads are armed for this
+// construction (op `arm k`: the k-th copy/move construction from now on throws)
+static int fresh_id_or_throw(int src_id, int src_val)
+{
+    if (g_arm > 0 && --g_arm == 0)
+    {
+        ev("F", src_id);
+        throw payload_error{src_val};
+    }
+    return g_next++;
+}
+
 struct track
 {
     int id;
@@ -78,14 +91,14 @@ struct track
         ev("C", id, v);
     }
     track(track const& o)
-      : id(g_next++)
+      : id(fresh_id_or_throw(o.id, o.val))
       , val(o.val)
       , magic(ALIVE)
     {
         ev(o.magic == ALIVE ? "K" : "K!", id, o.id);
     }
-    track(track&& o) noexcept
-      : id(g_next++)
+    track(track&& o)
+      : id(fresh_id_or_throw(o.id, o.val))
       , val(o.val)
       , magic(ALIVE)
     {
@@ -112,7 +125,7 @@ struct FP
       , self(this)
     {
     }
-    FP(FP&& o) noexcept
+    FP(FP&& o)
       : t(std::move(o.t))
       , self(this)
     {
@@ -158,7 +171,7 @@ struct SP
       , mode(mode)
     {
     }
-    SP(SP&& o) noexcept
+    SP(SP&& o)
       : t(std::move(o.t))
       , mode(o.mode)
     {
@@ -394,9 +407,14 @@ static std::string do_op(op_t const& o)
 {
     auto arg = [&](std::size_t k) -> long long { return k < o.args.size() ? o.args[k] : 0; };
     long long i = arg(0);
+    std::string const& n = o.name;
+    if (n == "arm")
+    {
+        g_arm = int(i < 0 ? 0 : i);
+        return "ok";
+    }
     if (i < 0 || i >= N) return "invalid";
     slot& s = S[i];
-    std::string const& n = o.name;
     if (n == "new")
     {
         if (s.live()) return "invalid";
@@ -549,6 +567,7 @@ static void run_one(case_t const& c)
         std::printf("o %s", o.name.c_str());
         for (auto a : o.args) std::printf(" %lld", a);
         std::printf(" => %s |%s\n", res.c_str(), g_evs.c_str());
+        std::fflush(stdout);    // keep the history up to a crash
     }
     std::fflush(stdout);
     std::printf("end ok\n");
@@ -571,6 +590,7 @@ static void reset_world()
         s.a.reset();
     }
     g_next = 0;
+    g_arm = 0;
     g_evs.clear();
 }
 
